@@ -534,7 +534,8 @@ class KeyringSAXContentHandler(ContentHandler):
         if isinstance(value, str):
             value = value.encode("utf-8")
 
-        self.output.append(len(value))
+        # single length octet - longer strings (eg. many `Senders`) contribute its low octet
+        self.output.append(len(value) & 0xFF)
         self.output.extend(value)
 
 
